@@ -241,8 +241,8 @@ def check_case(case) -> Result:
                 k1 = sum(c for k, c in bs.items() if k[pos] == "1")
                 p = min(max(float(occ_final[i]), 0.0), 1.0)
                 # widen p by the comparison tolerance so that the test is about positions, not about rounding
-                lo = binom.cdf(k1, tot, min(1.0, p + tol))
-                hi = binom.sf(k1 - 1, tot, max(0.0, p - tol))
+                lo = binom.cdf(k1, tot, max(0.0, p - tol))  # "too few ones" judged against the smallest admissible p
+                hi = binom.sf(k1 - 1, tot, min(1.0, p + tol))  # "too many ones" against the largest admissible p
                 if min(lo, hi) < alpha:
                     r.fail("bitstring_position_not_atom_order:" + name + (":internal_reorder" if perm_nontrivial and name == "variant" else ""),
                            f"atom {q} (position {pos}): {k1}/{tot} ones, occupation {p:.4f}; tail prob {min(lo, hi):.2e}")
